@@ -468,9 +468,6 @@ class Session:
             self.stats["skipped"] += 1      # set members: not addressable
             return
         value = oper["value"]
-        if value is None and any(t.anchor for t in targets):
-            self.stats["skipped"] += 1
-            return
         expected = tree.clone()
         model.apply_set(expected, positions, snapshot.typed_scalar(value))
         kwargs = {"mustexist": oper.get("mustexist", True)}
